@@ -14,6 +14,47 @@ def is_di(cp):
     return any(a <= cp <= b for a, b in DI_RANGES)
 
 
+# variation selectors (CharExt::is_variation_selector): Inherited script, valid after any character of any script;
+# default ignorable, general category Mn
+VS_POOL = [0xFE00, 0xFE01, 0xFE0E, 0xFE0F, 0xE0100, 0xE0101, 0xE01EF]
+
+
+def is_vs(cp):
+    return 0xFE00 <= cp <= 0xFE0F or 0xE0100 <= cp <= 0xE01EF
+
+
+def vs_run(r):
+    """one selector, or several consecutive ones"""
+    return [r.choice(VS_POOL) for _ in range(r.choice([1, 1, 2, 2, 3]))]
+
+
+def add_selectors(r, text, marks_set, prefer=None):
+    """variation selectors where the normalizer's variation-selector round distinguishes cases: after a base, after
+    a mark (inside / at the end of a mark run), at the start, and in a later unrelated cluster"""
+    t = list(text)
+    for _ in range(r.choice([1, 1, 2])):
+        marks = [i for i, c in enumerate(t) if c in marks_set]
+        bases = [i for i, c in enumerate(t) if c not in marks_set and not is_vs(c)]
+        k = r.below(7)
+        if prefer and r.chance(1, 2):
+            # a base the font has variation sequences for, followed by selector(s), as a cluster of its own
+            i = r.below(len(t) + 1)
+            while i < len(t) and (t[i] in marks_set or is_vs(t[i])):
+                i += 1
+            t[i:i] = [r.choice(prefer)] + vs_run(r)
+        elif k < 3 and bases:
+            i = r.choice(bases); t[i + 1:i + 1] = vs_run(r)
+        elif k < 5 and marks:
+            i = r.choice(marks); t[i + 1:i + 1] = vs_run(r)
+        elif k == 5:
+            t[0:0] = vs_run(r)
+        elif bases:
+            t += [t[r.choice(bases)]] + vs_run(r)
+        else:
+            t += vs_run(r)
+    return t
+
+
 # script name -> (ISO tag used only for reporting, code point ranges); strings are drawn from one entry at a time
 SCRIPTS = {
     "latin": [(0x41, 0x5A), (0x61, 0x7A), (0xC0, 0x17F), (0x1E00, 0x1EFF), (0x300, 0x345), (0x346, 0x34E), (0x350, 0x36F)],
@@ -75,6 +116,7 @@ def closure(cps):
 
 
 MIRRORED = -1
+HIDDEN_DI = -2     # a default ignorable shown as the invisible (space) glyph: default flags, font with a space glyph
 
 
 def full_decomp(cps, rtl=False):
@@ -82,7 +124,12 @@ def full_decomp(cps, rtl=False):
     In right-to-left results characters with the Bidi_Mirrored property may be replaced by their mirror
     image (standard bidi mirroring): they are compared as one anonymous token."""
     out = []
+    flat = []
     for cp in cps:
+        flat.extend(cp if isinstance(cp, tuple) else [cp])
+    for cp in flat:
+        if cp == HIDDEN_DI:
+            out.append(cp); continue
         for c in unicodedata.normalize("NFD", chr(cp)):
             if rtl and unicodedata.mirrored(c):
                 out.append(MIRRORED); continue
@@ -94,22 +141,43 @@ def full_decomp(cps, rtl=False):
     return sorted(out)
 
 
-def make_font(name, with_dotted_circle, with_space):
+def make_font(name, with_dotted_circle, with_space, vs_glyphs=True, uvs_bases=None):
+    """uvs_bases: None | characters that get cmap format 14 entries with some selectors: a non-default mapping
+    (a glyph of its own standing for the pair) or a default entry (the base's nominal glyph stands for the pair).
+    Returns the recipe, the cmap, the inverse map glyph -> character (or tuple of characters) and the set of
+    (base, selector) pairs with a default entry."""
     cps = closure(alphabet(name))
     extra = ([DOTTED_CIRCLE] if with_dotted_circle else []) + ([0x20] if with_space else [])
     # DI characters used by the REMOVE stream get glyphs too
     extra += [0x200C, 0x200D, 0x00AD, 0x034F, 0x2060]
+    if vs_glyphs:
+        extra += VS_POOL
     allc = []
     for c in cps + extra:
         if c not in allc:
             allc.append(c)
     cmap = {cp: i + 1 for i, cp in enumerate(allc)}
-    rec = {"num_glyphs": len(allc) + 1, "cmap": cmap, "advances": [600] * (len(allc) + 1)}
+    ng = len(allc) + 1
     inv = {g: cp for cp, g in cmap.items()}
+    default_pairs = set()
+    rec = {"cmap": cmap}
+    if uvs_bases:
+        uvs = []
+        # non-default mappings only: the glyph of a sequence is recovered as (base, selector) whatever the buffer order
+        # was when the pair met (a forced direction reverses the text by graphemes first); default entries (the base's
+        # own glyph stands for the pair, the selector is not recoverable) are exercised by the norm-run streams
+        for bi, b in enumerate(uvs_bases):
+            for vi, v in enumerate(VS_POOL):
+                if (bi + vi) % 3 != 2:
+                    uvs.append([b, v, ng]); inv[ng] = (b, v); ng += 1
+        wide = any(cp > 0xFFFF for cp in cmap)
+        rec = {"cmap_subtables": [{"platform": 0, "encoding": 5, "format": 14, "uvs": uvs},
+                                  {"platform": 3, "encoding": 10 if wide else 1, "format": 12 if wide else 4, "map": cmap}]}
+    rec.update({"num_glyphs": ng, "advances": [600] * ng})
     if not with_dotted_circle:
         # the vowel-constraint pass inserts U+25CC as a *character*; a font without that glyph shows .notdef
         inv[0] = DOTTED_CIRCLE
-    return rec, cmap, inv
+    return rec, cmap, inv, default_pairs
 
 
 def class_key(cp):
@@ -185,11 +253,48 @@ def rand_string(r, alpha, marks, n, edge=None):
     return s
 
 
-def check_case(text, out, inv, flags, has_dc, removed_ok, rtl=False):
-    """text: list of cps (cluster = index); out: [(gid, cluster)]. Returns None or a description."""
+def check_case(text, out, inv, flags, has_dc, removed_ok, rtl=False, hidden=False, default_pairs=()):
+    """text: list of cps (cluster = index); out: [(gid, cluster)]. Returns None or a description.
+    inv: glyph -> character, or -> (base, selector) for the glyph of a variation sequence (cmap format 14).
+    hidden: neither PRESERVE nor REMOVE is set and the font has a space glyph: every default ignorable of the text
+    (a variation selector is one) must come out as exactly one invisible (space) glyph in its cluster.
+    default_pairs: (base, selector) pairs for which the font's cmap format 14 subtable says "use the base's own
+    glyph": such a selector directly after that base may be absent (it is part of the variation sequence)."""
     if not out:
         kept = [c for c in text if not (removed_ok and is_di(c))]
         return None if not kept else {"kind": "all output lost", "input": text}
+
+    def want_of(cps):
+        cps = [x for x in cps if not (removed_ok and is_di(x))]
+        return [HIDDEN_DI if (hidden and is_di(x)) else x for x in cps]
+
+    def got_of(chars, own_spaces):
+        """characters recovered from glyphs -> comparable tokens"""
+        res = []
+        for x in chars:
+            if isinstance(x, tuple):
+                # the glyph of a variation sequence stands for all its characters; the selector inside it is
+                # neither removed nor hidden separately
+                for y in x:
+                    if is_di(y) and removed_ok:
+                        continue
+                    res.append(HIDDEN_DI if (hidden and is_di(y)) else y)
+            elif hidden and x == 0x20:
+                # the space glyphs stand for the text's own spaces first, the rest for hidden ignorables
+                if own_spaces[0] > 0:
+                    own_spaces[0] -= 1
+                    res.append(x)
+                else:
+                    res.append(HIDDEN_DI)
+            else:
+                res.append(x)
+        return res
+
+    absorb = {}
+    for i in range(len(text) - 1):
+        if (text[i], text[i + 1]) in default_pairs and not removed_ok:
+            tok = HIDDEN_DI if hidden else text[i + 1]
+            absorb[tok] = absorb.get(tok, 0) + 1
     clusters = sorted({c for _, c in out})
     # partition the input by the output cluster values
     parts = {c: [] for c in clusters}
@@ -199,32 +304,60 @@ def check_case(text, out, inv, flags, has_dc, removed_ok, rtl=False):
             if c <= i:
                 owner = c
         parts[owner].append(cp)
+    everything = [inv.get(g) for g, _ in out]
     for c in clusters:
         got = [inv.get(g) for g, cl in out if cl == c]
         if any(x is None for x in got):
             return {"kind": "glyph outside the cmap", "cluster": c, "glyphs": [g for g, cl in out if cl == c]}
-        want = parts[c]
-        if removed_ok:
-            want = [x for x in want if not is_di(x)]
-        dg = full_decomp(got, rtl)
-        dw = full_decomp(want, rtl)
+        show = [hex(v) if isinstance(v, int) else "+".join(hex(y) for y in v) for v in got]
+        dg = full_decomp(got_of(got, [sum(1 for x in parts[c] if x == 0x20)]), rtl)
+        dw = full_decomp(want_of(parts[c]), rtl)
         # allowed optional additions: dotted circles (unless forbidden / impossible), 17C1 per Khmer split vowel
         extra = list(dg)
         for x in dw:
             if x in extra:
                 extra.remove(x)
+            elif absorb.get(x, 0) > 0:
+                absorb[x] -= 1          # absorbed into a default variation sequence of the font
             else:
-                return {"kind": "character lost or moved out of its cluster", "cluster": c, "missing": hex(x) if x >= 0 else "mirrored",
-                        "cluster_input": [hex(v) for v in parts[c]], "cluster_output": [hex(v) for v in got]}
-        n_split = sum(1 for x in want if x in KHMER_SPLIT)
+                name = hex(x) if x >= 0 else "mirrored" if x == MIRRORED else "hidden-default-ignorable"
+                # vanished: the whole output has fewer of this character than the text (it did not just move)
+                vanished = None not in everything and \
+                    full_decomp(got_of(everything, [sum(1 for v in text if v == 0x20)]), rtl).count(x) + \
+                    sum(1 for i in range(len(text) - 1) if (text[i], text[i + 1]) in default_pairs and
+                        (HIDDEN_DI if hidden else text[i + 1]) == x) < \
+                    full_decomp(want_of(text), rtl).count(x)
+                d = {"kind": "character lost or moved out of its cluster", "cluster": c, "missing": name,
+                     "vanished": vanished, "cluster_input": [hex(v) for v in parts[c]], "cluster_output": show}
+                # attribution of one upstream-inherited behaviour: the font has a variation-sequence glyph for
+                # (base, selector) of this cluster, the pair became that one glyph (replace_glyphs(2, 1): the record
+                # keeps the base's code point), and the recomposition round then composed the base with a following
+                # mark into a character the font maps: the composite's nominal glyph replaces the sequence glyph, the
+                # selector is gone.  Signature: a selector is missing, the cluster holds such a pair, and its output
+                # holds a composite of that base that the input does not.
+                sel_missing = (x == HIDDEN_DI) or (x >= 0 and is_vs(x))
+                if vanished and sel_missing:
+                    pairs = {v for v in inv.values() if isinstance(v, tuple)}
+                    for b in parts[c]:
+                        if not any((b, v) in pairs for v in parts[c] if is_vs(v)):
+                            continue
+                        nb = unicodedata.normalize("NFD", chr(b))
+                        for y in got:
+                            if isinstance(y, int) and y >= 0 and y not in parts[c]:
+                                ny = unicodedata.normalize("NFD", chr(y))
+                                if len(ny) > len(nb) and ny.startswith(nb):
+                                    d["sequence_base_recomposed"] = [hex(b), hex(y)]
+                return d
+        n_split = sum(1 for x in parts[c] if x in KHMER_SPLIT)
         for x in extra:
             if x == DOTTED_CIRCLE and not (flags & 0x10):
                 continue
             if x == 0x17C1 and n_split > 0:
                 n_split -= 1
                 continue
-            return {"kind": "character added or duplicated in a cluster", "cluster": c, "extra": hex(x) if x >= 0 else "mirrored",
-                    "cluster_input": [hex(v) for v in parts[c]], "cluster_output": [hex(v) for v in got]}
+            return {"kind": "character added or duplicated in a cluster", "cluster": c,
+                    "extra": hex(x) if x >= 0 else "mirrored" if x == MIRRORED else "hidden-default-ignorable",
+                    "cluster_input": [hex(v) for v in parts[c]], "cluster_output": show}
     return None
 
 
@@ -243,13 +376,16 @@ def conservation_search(ctx, shim, r, per_script, scripts=None):
         marks = [c for c in alpha if unicodedata.category(chr(c)).startswith("M")]
         edge = sorted(set(boundaries(alpha)) | set(source_boundaries(name, alpha)))
         src_edge = source_boundaries(name, alpha, with_unicode=False) or edge
-        for variant in range(2):
-            has_dc = variant == 0
-            rec, cmap, inv = make_font(name, has_dc, True)
+        marks_set = set(marks)
+        non_marks = [c for c in alpha if c not in marks_set]
+        # font variants: (dotted circle, glyphs for the selectors, cmap format 14 variation sequences)
+        for variant, (has_dc, vs_glyphs, fmt14) in enumerate([(True, True, False), (False, True, True), (True, False, False)]):
+            uvs_bases = r.sample(non_marks, min(6, len(non_marks))) if fmt14 else None
+            rec, cmap, inv, default_pairs = make_font(name, has_dc, True, vs_glyphs, uvs_bases)
             fid = f"S{si}v{variant}"
             lines = [f"font {fid} {fontbuild.hexfont(rec)}"]
             cases = []
-            for _ in range(per_script):
+            for _ in range(per_script if variant < 2 else per_script // 2):
                 n = r.range(1, 8)
                 text = rand_string(r, alpha, marks, n, edge)
                 if name == "hangul" and r.chance(1, 3):
@@ -261,27 +397,41 @@ def conservation_search(ctx, shim, r, per_script, scripts=None):
                            ([r.choice([0x302E, 0x302F])] if r.chance(1, 4) else [])
                 mode = r.below(6)
                 flags = r.choice([0, 3, 0x10, 0x13])
-                removed_ok = False
-                if mode == 0:
+                removed_ok = hidden = False
+                with_vs = r.chance(1, 3) if variant < 2 else True
+                if with_vs:
+                    # variation selectors are characters of the text like any other: kept (PRESERVE), each shown as the
+                    # invisible glyph (default flags) or removed (REMOVE); a font without glyphs for them can only be
+                    # asked for the last two
+                    if r.chance(1, 4):
+                        text = text[:r.range(1, 2)]
+                    text = add_selectors(r, text, marks_set, uvs_bases)
+                    k = r.choice([0, 4, 4, 8] if vs_glyphs else [0, 8])
+                    flags |= k
+                    removed_ok, hidden = k == 8, k == 0
+                if mode == 0 and not hidden:
                     # default ignorables present: REMOVE must delete exactly them, PRESERVE keeps them
                     for _ in range(r.range(1, 2)):
                         text.insert(r.below(len(text) + 1), r.choice([0x200C, 0x200D, 0x00AD, 0x034F, 0x2060]))
-                    if r.chance(1, 2):
-                        flags |= 8; removed_ok = True
-                    else:
-                        flags |= 4
+                    if not with_vs:
+                        if r.chance(1, 2):
+                            flags |= 8; removed_ok = True
+                        else:
+                            flags |= 4
                 d = r.choice(["-", "-", "-", "l", "r"])
                 t = ",".join(f"{cp:x}:{i}" for i, cp in enumerate(text))
                 lines.append(f"shape {fid} {d} - - {flags} 0 - - - {t}")
                 native = "r" if name in RTL_SCRIPTS else "l"
                 forced = d != "-" and d != native
-                cases.append((text, flags, removed_ok, forced))
-            groups.append(lines); meta.append((name, has_dc, inv, cases))
+                cases.append((text, flags, removed_ok, forced, hidden))
+            groups.append(lines); meta.append((name, has_dc, inv, default_pairs, cases))
     outs = vlib.run_groups(shim, groups, timeout=600)
     total = nontriv = bad = 0
     per = {}
-    for (name, has_dc, inv, cases), g, o in zip(meta, groups, outs):
-        for (text, flags, removed_ok, forced), ln, x in zip(cases, g[1:], o[1:]):
+    by_class = {}
+    dist = {}
+    for (name, has_dc, inv, default_pairs, cases), g, o in zip(meta, groups, outs):
+        for (text, flags, removed_ok, forced, hidden), ln, x in zip(cases, g[1:], o[1:]):
             total += 1
             out = parse_shape(x)
             if out is None:
@@ -294,32 +444,82 @@ def conservation_search(ctx, shim, r, per_script, scripts=None):
             if len(text) > 1:
                 nontriv += 1
             rtl = ln.split()[2] == "r" or (ln.split()[2] == "-" and name in RTL_SCRIPTS)
-            d = check_case(text, out, inv, flags, has_dc, removed_ok, rtl)
+            d = check_case(text, out, inv, flags, has_dc, removed_ok, rtl, hidden, default_pairs)
+            sel = [i for i, c in enumerate(text) if is_vs(c)]
+            if sel:
+                ks = ["selector", "selector:" + ("removed" if removed_ok else "hidden" if hidden else "preserved")]
+                if any(i + 1 in sel for i in sel): ks.append("selector:consecutive")
+                if any(i and not is_vs(text[i - 1]) and unicodedata.category(chr(text[i - 1])).startswith("M") for i in sel): ks.append("selector:after-mark")
+                if any(len(inv) and isinstance(inv.get(gl), tuple) for gl, _ in out): ks.append("selector:variation-sequence-glyph")
+                if default_pairs: ks.append("selector:font-has-format14")
+                for k_ in ks:
+                    dist[k_] = dist.get(k_, 0) + 1
             if d:
                 bad += 1
                 per[name] = per.get(name, 0) + 1
-                if bad <= 3 or per[name] == 1 and bad <= 12:
-                    joiner = any(is_di(cp) for cp in text)
+                if True:
+                    joiner = any(is_di(cp) and not is_vs(cp) for cp in text)
+                    # F1 / F4 are cluster SPLITS: a character ends up in a neighbouring cluster.  A character that is
+                    # missing from the whole output is a different thing and never matches them.
                     cls = ("syllabic" if name in SYLLABIC else "other") + (
-                        ":forced-direction" if forced else ":default-ignorable-in-text" if joiner else ":native-direction")
+                        ":variation-sequence-recomposed" if d.get("sequence_base_recomposed") else
+                        ":character-vanished" if d.get("vanished") else
+                        ":forced-direction" if forced else ":default-ignorable-in-text" if joiner else
+                        ":variation-selector-in-text" if sel else ":native-direction")
+                    # report per class (a class that is a known finding must not use up the quota of another one)
+                    by_class[cls] = by_class.get(cls, 0) + 1
+                    if by_class[cls] > 3 and not (per[name] == 1 and by_class[cls] <= 6):
+                        continue
                     ctx.violation(f"{name}: {d['kind']} ({' '.join(f'{c:04X}' for c in text)})",
                                   {"stage": "search", "stream": "conservation", "script": name, "font_line": g[0],
                                    "class": cls, "kind": d["kind"],
                                    "request": ln, "text": [f"{c:04X}" for c in text], "flags": flags, "deviation": d,
                                    "observed": x})
-    ctx.note_search("conservation", total, nontriv, deviations=bad, by_script=per, scripts=len(names),
+    ctx.note_search("conservation", total, nontriv, deviations=bad, by_script=per, by_class=by_class, scripts=len(names),
+                    distribution=dist,
                     rule="per script with a dedicated shaper: random strings (30 % marks, incl. ill-formed sequences) over the "
                          "script's assigned characters on a generated font mapping every character (and every decomposition "
-                         "product) to its own glyph, with/without U+25CC; level 0; the characters recovered per output cluster "
+                         "product) to its own glyph, with/without U+25CC; a third of the strings carry variation selectors (one "
+                         "or several consecutive ones after a base, after a mark, inside / at the end of a mark run, at the "
+                         "start, in a later cluster) under PRESERVE_DEFAULT_IGNORABLES (kept), default flags (each shown as "
+                         "one invisible glyph) and REMOVE_DEFAULT_IGNORABLES (removed), on fonts with and without glyphs for "
+                         "the selectors and with and without cmap format 14 variation sequences (the glyph of a sequence "
+                         "stands for base + selector); level 0; the characters recovered per output cluster "
                          "must equal the input characters of that cluster up to order and canonical equivalence (+ documented "
                          "additions/removals); non-trivial = more than one character")
+
+
+RECOMPOSED_CLASS = "variation-sequence-recomposed"
+
+
+def recomposed_witness(ctx, shim):
+    """Permanent witness of the finding `variation-sequence-recomposed`: Greek <U+1F40 U+FE00 U+0301>, native
+    direction, PRESERVE_DEFAULT_IGNORABLES, on a font with a variation-sequence glyph for (U+1F40, U+FE00) and a glyph
+    for U+1F44: the pair becomes the sequence glyph, the recomposition round then composes U+1F40 + U+0301 and puts
+    the nominal glyph of U+1F44 there; U+FE00 and the variation are gone.  Replayed on every run once the finding is
+    registered in known_findings.json (until then the random search reports it when it meets it)."""
+    import json
+    if not any(k.get("property") == "C08" and RECOMPOSED_CLASS in json.dumps(k.get("signature", {})) for k in ctx.kf):
+        return
+    rec, cmap, inv, _ = make_font("greek", False, True, True, [0x1F40])
+    text = [0x1F40, 0xFE00, 0x0301]
+    grp = [f"font W {fontbuild.hexfont(rec)}", "shape W l - - 4 0 - - - " + ",".join(f"{c:x}:{i}" for i, c in enumerate(text))]
+    o = vlib.run_groups(shim, [grp], nproc=1)[0]
+    out = parse_shape(o[1])
+    d = check_case(text, out, inv, 4, False, False) if out is not None else {"kind": "no output"}
+    if d:
+        cls = "other:" + (RECOMPOSED_CLASS if d.get("sequence_base_recomposed") else "character-vanished" if d.get("vanished") else "native-direction")
+        ctx.violation(f"greek: {d['kind']} ({' '.join(f'{c:04X}' for c in text)})",
+                      {"stage": "search", "stream": "conservation", "script": "greek", "font_line": grp[0], "class": cls,
+                       "kind": d["kind"], "request": grp[1], "text": [f"{c:04X}" for c in text], "flags": 4,
+                       "deviation": d, "observed": o[1], "witness": True})
 
 
 def thai_stream(ctx, r, n):
     """Thai / Lao preprocessing: hook vs Lean model on strings dense in SARA AM and above-base marks"""
     groups = []
     for name, base in (("thai", 0), ("lao", 0x80)):
-        rec, cmap, inv = make_font(name, True, True)
+        rec, cmap, inv, _ = make_font(name, True, True)
         lines = [f"font T{base} {fontbuild.hexfont(rec)}"]
         pool = [0x0E33 + base] * 4 + [0x0E31 + base, 0x0E34 + base, 0x0E35 + base, 0x0E48 + base, 0x0E49 + base, 0x0E4A + base,
                                        0x0E4D + base, 0x0E32 + base, 0x0E01 + base, 0x0E14 + base, 0x0E38 + base, 0x0E3B + base, 0x41]
@@ -342,6 +542,7 @@ def run(ctx):
         "canonical equivalence is decided with CPython's unicodedata (Unicode 14): alphabets are restricted to characters assigned there",
         "the syllabic shapers (Indic, USE, Khmer, Myanmar) are not modelled in Lean: for them the property rests on this search only",
         "C08_default_shaper_conserves is about RbModel/Pipeline.lean (default shaper, fonts without layout tables), tied to the crate by the pipeline-shape stream",
+        "C08_vs_round_keeps / C08_vs_round_chars are about Norm.vsLoop (RbModel/Norm.lean: handle_variation_selector_cluster with cmap format 14 as a parameter), tied to the crate by the norm-run-selectors stream (hook verif::normalize::normalize_vs)",
     ]
     ctx.regen()
     ctx.prove(MODULE)
@@ -352,6 +553,14 @@ def run(ctx):
     chars = P.Chars(shim)
     chars.load(C16.LETTERS + C16.MIRROR + C16.VERT + C16.SPACES + C16.CONT + C16.MARKS0 + C16.DI + C16.MAC + [0x25CC])
     P.correspond(ctx, "pipeline-shape", C16.shape_lines(ctx.rng("shape"), chars, ctx.budget(300, 20000)), classify=C16.classify_shape)
+    # C08_vs_round_keeps / C08_vs_round_chars are statements about Norm.vsLoop (handle_variation_selector_cluster): its
+    # tie to the crate is C09's norm-run stream, here restricted to texts with variation selectors
+    import C09
+    U9 = C09.UData(shim)
+    sel_lines = [ln for ln in C09.gen_run_lines(ctx.rng("norm-selectors"), ctx.budget(8000, 150000), U9)
+                 if any(c in U9.vs for c, _, _ in C09.parse_text_tok(ln.split()[9]))]
+    ctx.correspond("norm-run-selectors", lines=sel_lines, classify=C09.classify_run)
+    recomposed_witness(ctx, shim)
     conservation_search(ctx, shim, ctx.rng("conservation"), ctx.budget(400, 12000))
 
 
